@@ -6,6 +6,7 @@ import (
 	"io"
 	"math/rand"
 	"os"
+	"time"
 
 	"golang.org/x/net/http2"
 	"golang.org/x/net/http2/hpack"
@@ -155,7 +156,15 @@ func (e *endpoint) readLoop() {
 			return
 		}
 	}
+	slow := e.s.Plan.SlowReader[e.idx]
+	var nread uint64
 	for {
+		if slow {
+			// a destination that is slow to accept bytes (the relay's writes toward us block)
+			nread++
+			x := (uint64(e.s.Plan.SegSeed) ^ nread*0x9e3779b97f4a7c15) >> 20
+			time.Sleep(time.Duration(300+x%1200) * time.Microsecond)
+		}
 		f, err := e.fr.ReadFrame()
 		if err != nil {
 			e.s.mu.Lock()
